@@ -5,6 +5,9 @@
    what goes upwards is min(Request, max)), and at every level of the tree the C02 clauses
    (C02.Spec.prop_code) are decided on the runtimes the IMPLEMENTATION logged for the children of
    one parent, against those from-scratch siblings and the parent's logged runtime as the total.
+   With min-quota scaling on, a child is owed its DECLARED min whenever the declared mins of its
+   siblings fit in what the parent has, and otherwise the scaled min of getScaledMinQuota (exact
+   binary64 evaluation), whose sum must not exceed the parent's total (clause 47).
    Clause ids 41..49 (46 = equal inputs, different division). *)
 From Coq Require Import List ZArith Bool.
 From Verif Require Import Lib.Wire C02.Model C02.Spec C02.Calc_Model C02.Mgr_Model.
@@ -12,8 +15,9 @@ Import ListNotations.
 Open Scope Z_scope.
 
 Record obj := mkObj { o_parent : Z; o_isParent : bool; o_lend : bool; o_max : Z; o_min : Z; o_weight : Z }.
-Record objs := mkObjs { os_total : Z; os_quotas : list (Z * obj); os_pods : list (Z * Z * Z) }.
-Definition objs0 : objs := mkObjs 0 [] [].
+Record objs := mkObjs { os_total : Z; os_quotas : list (Z * obj); os_pods : list (Z * Z * Z);
+                        os_hasTotal : bool (* the cluster total was ever set to something else *) }.
+Definition objs0 : objs := mkObjs 0 [] [] false.
 
 Definition obj_children (k : Z) (s : objs) : list (Z * obj) := filter (fun p => o_parent (snd p) =? k) (os_quotas s).
 
@@ -24,15 +28,15 @@ Definition objs_step (s : objs) (o : mop) : objs :=
       | None =>
           let parent_ok := (par =? 0) || match afind par (os_quotas s) with Some p => o_isParent p | None => false end in
           if negb parent_ok || (k =? 0) then s
-          else mkObjs (os_total s) (os_quotas s ++ [(k, mkObj par isPar lnd mx mn (eff_weight mx w))]) (os_pods s)
+          else mkObjs (os_total s) (os_quotas s ++ [(k, mkObj par isPar lnd mx mn (eff_weight mx w))]) (os_pods s) (os_hasTotal s)
       | Some ob =>
           mkObjs (os_total s)
                  (aset k (mkObj (o_parent ob) (o_isParent ob) (o_lend ob) mx mn (eff_weight mx w)) (os_quotas s))
-                 (os_pods s)
+                 (os_pods s) (os_hasTotal s)
       end
   | MDelete k =>
       match afind k (os_quotas s), obj_children k s with
-      | Some _, [] => mkObjs (os_total s) (adel k (os_quotas s)) (filter (fun p => negb (fst (fst p) =? k)) (os_pods s))
+      | Some _, [] => mkObjs (os_total s) (adel k (os_quotas s)) (filter (fun p => negb (fst (fst p) =? k)) (os_pods s)) (os_hasTotal s)
       | _, _ => s
       end
   | MPod k sl v =>
@@ -40,10 +44,10 @@ Definition objs_step (s : objs) (o : mop) : objs :=
       | Some ob =>
           if o_isParent ob then s else
           let rest := filter (fun p => negb ((fst (fst p) =? k) && (snd (fst p) =? sl))) (os_pods s) in
-          mkObjs (os_total s) (os_quotas s) (if v =? 0 then rest else rest ++ [(k, sl, v)])
+          mkObjs (os_total s) (os_quotas s) (if v =? 0 then rest else rest ++ [(k, sl, v)]) (os_hasTotal s)
       | None => s
       end
-  | MTotal t => mkObjs t (os_quotas s) (os_pods s)
+  | MTotal t => if t =? os_total s then s else mkObjs t (os_quotas s) (os_pods s) true
   | MNoop => s
   end.
 
@@ -74,10 +78,19 @@ Fixpoint sort_ids (l : list (Z * obj)) : list (Z * obj) :=
 Fixpoint number {A} (i : Z) (l : list A) : list (Z * A) :=
   match l with [] => [] | x :: t => (i, x) :: number (i + 1) t end.
 
-Definition group_nodes (s : objs) (g : Z) : list (Z * node) :=   (* (quota id, sibling) *)
+(* the minimum a child of parent g is owed when g has [t] to divide: its DECLARED min whenever the
+   declared mins of g's children fit in t (or scaling is off, or the cluster total was never set);
+   otherwise the scaled min of getScaledMinQuota *)
+Definition sum_min (s : objs) (g : Z) : Z := sumZ (map (fun p => o_min (snd p)) (obj_children g s)).
+Definition scaling (sc : bool) (s : objs) (g t : Z) : bool :=
+  sc && ((negb (g =? 0)) || os_hasTotal s) && (t <? sum_min s g).
+Definition owed_min (sc : bool) (s : objs) (g t : Z) (ob : obj) : Z :=
+  if scaling sc s g t then scaled_min t (o_min ob) (sum_min s g) else o_min ob.
+
+Definition group_nodes (sc : bool) (s : objs) (g t : Z) : list (Z * node) :=   (* (quota id, sibling) *)
   let fuel := S (length (os_quotas s)) in
   map (fun ip => let '(i, (k, ob)) := ip in
-                 (k, mkNode i (up_request fuel s k ob) (o_weight ob) (o_min ob) 0 (o_lend ob)))
+                 (k, mkNode i (up_request fuel s k ob) (o_weight ob) (owed_min sc s g t ob) 0 (o_lend ob)))
       (number 1 (sort_ids (obj_children g s))).
 
 Definition logged (K : nat) (o : list Z) (k : Z) : Z := nth (Z.to_nat k - 1) o (-1).
@@ -103,8 +116,8 @@ Definition pure_ok (t : Z) (ns : list node) (o : list Z) (sn : seen) : bool :=
   forallb (fun e => let '(t', ns', o') := e in negb ((t' =? t) && nodes_eqb ns' ns) || eq_lz o' o) sn.
 
 (* one group: parent g (0 = root) with total t *)
-Definition group_code (s : objs) (K : nat) (o : list Z) (g t : Z) (sn : seen) : Z * seen :=
-  let kn := group_nodes s g in
+Definition group_code (sc : bool) (s : objs) (K : nat) (o : list Z) (g t : Z) (sn : seen) : Z * seen :=
+  let kn := group_nodes sc s g t in
   match kn with
   | [] => (0, sn)
   | _ =>
@@ -112,39 +125,40 @@ Definition group_code (s : objs) (K : nat) (o : list Z) (g t : Z) (sn : seen) : 
       let rts := map (fun p => logged K o (fst p)) kn in
       let c := prop_code t ns rts in
       if negb (c =? 0) then (40 + c, sn)
+      else if scaling sc s g t && negb (sumZ (map qmin ns) <=? t) then (47, sn)   (* scaled mins must fit *)
       else if negb (pure_ok t ns rts sn) then (46, sn)
       else (0, (t, ns, rts) :: sn)
   end.
 
-Fixpoint groups_code (s : objs) (K : nat) (o : list Z) (gs : list Z) (sn : seen) : Z * seen :=
+Fixpoint groups_code (sc : bool) (s : objs) (K : nat) (o : list Z) (gs : list Z) (sn : seen) : Z * seen :=
   match gs with
   | [] => (0, sn)
   | g :: rest =>
       let t := if g =? 0 then os_total s else logged K o g in
-      let '(c, sn') := group_code s K o g t sn in
-      if negb (c =? 0) then (c, sn) else groups_code s K o rest sn'
+      let '(c, sn') := group_code sc s K o g t sn in
+      if negb (c =? 0) then (c, sn) else groups_code sc s K o rest sn'
   end.
 
 Definition marks_ok (K : nat) (s : objs) (o : list Z) : bool :=
   forallb (fun p => match afind (fst p) (os_quotas s) with Some _ => negb (snd p =? -1) | None => snd p =? -1 end)
           (combine (ids K) o).
 
-Definition mstep_code (K : nat) (s : objs) (o : list Z) (sn : seen) : Z * seen :=
+Definition mstep_code (sc : bool) (K : nat) (s : objs) (o : list Z) (sn : seen) : Z * seen :=
   if negb (Nat.eqb (length o) K) then (49, sn)
   else if negb (marks_ok K s o) then (48, sn)
-  else groups_code s K o (0 :: map fst (filter (fun p => o_isParent (snd p)) (os_quotas s))) sn.
+  else groups_code sc s K o (0 :: map fst (filter (fun p => o_isParent (snd p)) (os_quotas s))) sn.
 
-Fixpoint mcheck (K : nat) (s : objs) (sn : seen) (ops : list mop) (obs : list Z) : Z :=
+Fixpoint mcheck (sc : bool) (K : nat) (s : objs) (sn : seen) (ops : list mop) (obs : list Z) : Z :=
   match ops with
   | [] => if is_nil obs then 0 else 49
   | o :: t =>
       let s' := objs_step s o in
-      let '(c, sn') := mstep_code K s' (firstn K obs) sn in
-      if negb (c =? 0) then c else mcheck K s' sn' t (skipn K obs)
+      let '(c, sn') := mstep_code sc K s' (firstn K obs) sn in
+      if negb (c =? 0) then c else mcheck sc K s' sn' t (skipn K obs)
   end.
 
 (* ---------- wire format ----------
-   input: K n then n records  code k a b c d e
+   input: K+100*scale n then n records  code k a b c d e
      0 UpdateQuota(k, parent=a, flags=b (1: isParent, 2: allowLent), max=c, min=d, sharedWeight=e)
      1 DeleteQuota(k)   2 pod of (k, slot a) replaced by one requesting b (0: just removed)
      3 cluster total = a   4 observe only
@@ -162,36 +176,37 @@ Fixpoint decode_mops (n : nat) (l : list Z) : list mop :=
   | _, _ => []
   end.
 
-Definition mgr_decode (inp : list Z) : nat * list mop :=
+(* first integer: K + 100 * (EnableMinQuotaScale ? 1 : 0) *)
+Definition mgr_decode (inp : list Z) : bool * nat * list mop :=
   match inp with
-  | K :: n :: t => (Z.to_nat K, decode_mops (Z.to_nat n) t)
-  | _ => (O, [])
+  | K :: n :: t => (100 <=? K, Z.to_nat (K mod 100), decode_mops (Z.to_nat n) t)
+  | _ => (false, O, [])
   end.
 
 Definition mgr_run_case (inp : list Z) : list Z :=
-  let '(K, ops) := mgr_decode inp in mrun_obs true K mgr0 ops.
+  let '(sc, K, ops) := mgr_decode inp in mrun_obs true sc K mgr0 ops.
 
 Definition mgr_prop_case (inp obs : list Z) : Z :=
-  let '(K, ops) := mgr_decode inp in mcheck K objs0 [] ops obs.
+  let '(sc, K, ops) := mgr_decode inp in mcheck sc K objs0 [] ops obs.
 
 (* non-trivial: at some step some group has at least two children, one asking for more than its
    minimum, and capacity is left after the minimums — judged on the model's own runtimes *)
-Fixpoint mcontended (K : nat) (s : objs) (st : mgr) (ops : list mop) : bool :=
+Fixpoint mcontended (sc : bool) (K : nat) (s : objs) (st : mgr) (ops : list mop) : bool :=
   match ops with
   | [] => false
   | o :: t =>
       let s' := objs_step s o in
-      let '(st', ob) := mobserve (ids K) (mstep true st o) in
+      let '(st', ob) := mobserve sc (ids K) (mstep true st o) in
       existsb (fun g =>
-                 let ns := map snd (group_nodes s' g) in
                  let tt := if g =? 0 then os_total s' else logged K ob g in
+                 let ns := map snd (group_nodes sc s' g tt) in
                  (1 <? Z.of_nat (length ns)) && existsb needs_adjust ns && (sumZ (map init_runtime ns) <? tt))
               (0 :: map fst (filter (fun p => o_isParent (snd p)) (os_quotas s')))
-      || mcontended K s' st' t
+      || mcontended sc K s' st' t
   end.
 
 Definition mgr_nontrivial_case (inp : list Z) : bool :=
-  let '(K, ops) := mgr_decode inp in mcontended K objs0 mgr0 ops.
+  let '(sc, K, ops) := mgr_decode inp in mcontended sc K objs0 mgr0 ops.
 
 (* no known finding: the stale request after a min update (findings/C02-stale-request-after-min-update.md)
    was repaired in /repo by cf84410 and is a regression scenario now *)
